@@ -88,12 +88,16 @@ def _utf16(ck, p, byk):
             lroots = arg_roots(f, pv, fields["line"])
             nl = False
             for o in lroots:
-                if o[0] == "call" and last(norm(o[3] or o[2] or "")) == "filter_map":
+                if o[0] == "call" and last(norm(o[3] or o[2] or "")) in ("filter_map", "filter", "rposition", "position", "take_while", "skip_while"):
                     c = _closure_of(p, f, pv, f.blocks[o[1]]["t"]["args"][1])
                     nl = nl or (c is not None and _newline_closure(c))
             ok = bool(sums) and unit == ["len_utf16"] and nl
             detail = "column = sum over the line of %s; line = number of '\\n' before the index: %s" % (unit, nl)
-        ck.decide(rule, "index_to_position", ok, f.span, detail)
+            if bool(sums) and unit == ["len_utf16"] and not nl:
+                ck.undecided(rule, "index_to_position", f.span, detail + " (how lines are counted was not recognised)")
+                ok = None
+        if ok is not None:
+            ck.decide(rule, "index_to_position", ok, f.span, detail)
     f = byk.get("harper_ls::pos_conv::position_to_index")
     if ck.anchor(rule, "pos_conv::position_to_index", f):
         f = f[0]
@@ -211,7 +215,22 @@ def _range(ck, p, byk):
                             for r in arg_roots(par, ppv, o):
                                 if r[0] == "call" and last(norm(r[3] or "")) in ("get_source", "get_full_content"):
                                     src_ok = ("arg", 3) in arg_roots(par, ppv, par.blocks[r[1]]["t"]["args"][0])
-            ck.decide(rule, "lint_to_code_actions:range", good_range and src_ok, c.span, "TextEdit.range = span_to_range(source, lint.span)=%s with source = document.get_source() of the document the lint belongs to=%s" % (good_range, src_ok))
+            if not good_range:
+                # helper form: span_to_range(document.get_source(), lint.span) with document and lint captured / passed through
+                for o in flatten(pv.trace_operand(fields["range"])):
+                    if o[0] == "call" and inst_of(c.blocks[o[1]]["t"]) == "harper_ls::pos_conv::span_to_range":
+                        t = c.blocks[o[1]]["t"]
+                        srcs = [x for x in arg_roots(c, pv, t["args"][0]) if x[0] == "call" and last(norm(x[3] or x[2] or "")) in ("get_source", "get_full_content")]
+                        doc_names = set()
+                        for x in srcs:
+                            doc_names |= _upvar_names(c, pv, c.blocks[x[1]]["t"]["args"][0])
+                        up_span = _upvar_names(c, pv, t["args"][1])
+                        if srcs and "document" in doc_names and "lint" in up_span and "span" in arg_fields(pv, t["args"][1]):
+                            good_range = src_ok = True
+            if not good_range and not any(inst_of(tt) == "harper_ls::pos_conv::span_to_range" for _, tt in c.calls()):
+                ck.undecided(rule, "lint_to_code_actions:range", c.span, "no span_to_range call in the per-suggestion closure: how the edit range is computed is not of a recognised form")
+            else:
+              ck.decide(rule, "lint_to_code_actions:range", good_range and src_ok, c.span, "TextEdit.range = span_to_range(source, lint.span)=%s with source = document.get_source() of the document the lint belongs to=%s" % (good_range, src_ok))
             # arms
             arms = _suggestion_arms(c, pv, fields["new_text"])
             want = {"Remove": "empty", "ReplaceWith": "payload", "InsertAfter": "flagged+payload"}
@@ -233,7 +252,7 @@ def _range(ck, p, byk):
             src_doc = any(o[0] == "call" and last(norm(o[3] or "")) in ("get_full_content", "get_source") and "document" in arg_fields(gpv, g.blocks[o[1]]["t"]["args"][0]) for o in arg_roots(g, gpv, t["args"][0]))
             rng = ("arg", 2) in arg_roots(g, gpv, t["args"][1])
             filt = False
-            for c2 in p.closures_of(g.name):
+            for c2 in [g] + list(p.closures_of(g.name)):
                 for _, t2 in c2.calls():
                     if inst_of(t2).endswith("span::{impl}::overlaps_with"):
                         filt = True
